@@ -336,8 +336,10 @@ func newWorkload(rng *rand.Rand) *workload {
 	if rng.Intn(4) == 0 {
 		tags = append(tags, "svc:web", "zone:a/1")
 	}
+	edgeTag := ""
 	if w.EdgeTags {
-		tags = append(tags, []string{":" + plainName(rng, 3), plainName(rng, 3) + ":", ":"}[rng.Intn(3)])
+		edgeTag = []string{":" + plainName(rng, 3), plainName(rng, 3) + ":", ":"}[rng.Intn(3)]
+		tags = append(tags, edgeTag)
 	}
 	if w.EscapeTags {
 		tags = append(tags, "k e y:v a l", "eq=k:v=w", "co,mma:x,y", "bare tag=x")
@@ -377,6 +379,9 @@ func newWorkload(rng *rand.Rand) *workload {
 			}
 			for j := 0; j < nt; j++ {
 				d.tags = append(d.tags, tags[rng.Intn(len(tags))])
+			}
+			if edgeTag != "" && round == 0 && i == 0 {
+				d.tags = append(d.tags, edgeTag) // the family always carries its tag on at least one series
 			}
 			if d.typ == 2 && rng.Intn(4) == 0 {
 				d.tags = append(d.tags, histTags[rng.Intn(len(histTags))])
